@@ -106,6 +106,58 @@ pub fn run(ctx: &Ctx) {
             }
         }
     }
+    // ---- key-length clause: bytes whose length is not exactly that of the requested kind are rejected
+    if replay_filter.is_none() {
+        let bs = crate::lab::backends();
+        let lens: [usize; 18] = [0, 1, 16, 31, 32, 33, 47, 48, 49, 50, 63, 64, 65, 95, 96, 97, 98, 128];
+        for b in &bs {
+            // material: valid keys of every kind of this backend (so that the first bytes of a longer input are a valid key)
+            let kps = crate::tok::keypairs(b, &mut g, 1);
+            let mut material: Vec<Vec<u8>> = vec![g.bytes(128), vec![0u8; 128]];
+            for kp in kps.iter().take(2) {
+                for part in [&kp.sk, &kp.pk] {
+                    let mut v = part.clone();
+                    v.extend_from_slice(&g.bytes(128));
+                    material.push(v);
+                }
+            }
+            if b.ver == "v3" {
+                // the same point in SEC1 uncompressed (97 bytes) and hybrid form: k3.public is the 49-byte compressed form only
+                use p384::elliptic_curve::sec1::ToEncodedPoint;
+                if let Some(pk) = kps.first().and_then(|kp| p384::PublicKey::from_sec1_bytes(&kp.pk).ok()) {
+                    let mut unc = pk.to_encoded_point(false).as_bytes().to_vec();
+                    unc.extend_from_slice(&[0u8; 40]);
+                    material.push(unc);
+                }
+            }
+            for kind in ["local", "public", "secret", "pke-public", "pke-secret"] {
+                let legal: Vec<usize> = match (b.ver, kind) {
+                    (_, "local") => vec![32],
+                    ("v1", _) => continue, // RSA keys are DER / PEM documents, not fixed-length strings (C08)
+                    ("v3", "public" | "pke-public") => vec![49],
+                    ("v3", _) => vec![48],
+                    (_, "public" | "pke-public") => vec![32],
+                    _ => vec![64],
+                };
+                for &len in &lens {
+                    if legal.contains(&len) {
+                        continue;
+                    }
+                    for mat in &material {
+                        rep.evaluations += 1;
+                        let bytes = &mat[..len];
+                        match (b.key_roundtrip)(kind, bytes) {
+                            Ok(k) => rep.violation("length.accepted", format!("{} accepts a {len}-byte string as a {kind} key (returned a {}-byte key)", b.name, k.len()),
+                                                   json!({"op": "key-length", "parser_backend": b.name, "parser_kind": kind, "input_hex": hex::encode(bytes)})),
+                            Err(e) if e == "panic" => rep.violation("length.panic", format!("{} panics on a {len}-byte string offered as a {kind} key", b.name), json!({"op": "key-length", "parser_backend": b.name, "parser_kind": kind, "input_hex": hex::encode(bytes)})),
+                            Err(_) => {}
+                        }
+                        rep.nontrivial(format!("len|{}|{kind}|{len}", b.name));
+                    }
+                }
+            }
+        }
+    }
     rep.exhaustive = true;
     rep.notes.push("exhaustive over the (producer kind, parser kind) pairs; sampled over data".into());
     rep.finish(ctx.out.as_deref());
